@@ -48,7 +48,7 @@ func init() {
 			"(HTTPGetter.Get, DownloadIndexFile, DownloadTo by repo/chart, by URL found / not found in the index, Manager.Update / Build / Update with index refresh / Update with a second repository, " +
 			"LocateChart --repo and Pull.Run --repo through a loopback proxy); the full 180 x 360 (quick) / 180 x 720 (thorough) repository x chart product is run at getter level and all 180 repositories at index level; " +
 			"the other call paths run the repository spellings with at most 1 deviation from http://repo.test (12) x every authority spelling of the chart (180, path /charts/x.tgz; thorough: all 4 paths, 720) plus the 5 bare references, " +
-			"thorough adds the 44 two-deviation repositories; quick crosses redirects with the paths that hand URLs to the getter differently, thorough crosses everything. " +
+			"thorough adds the 44 two-deviation repositories; quick crosses redirects with the paths that hand URLs to the getter differently, thorough crosses everything on chart paths 1-2 and the bare references. " +
 			"Plus histories on ONE HTTPGetter instance (options are sticky): all ordered pairs of Get calls over the 12 (thorough 56) repository spellings, each call either re-configuring the getter " +
 			"(WithURL, WithBasicAuth of its own credentials, WithPassCredentialsAll on/off) or inheriting, the file on the origin of either repository or a third one; thorough also all ordered triples over 6 origin relations. " +
 			"distinct = the case tuple; a case is non-trivial when Helm issued at least one request",
@@ -119,7 +119,8 @@ type spaceInfo struct {
 //	          index    : all repository spellings x pass x redirect
 //	          others   : 1-deviation repositories x chart spellings (1 path + bare references) x pass x coreCombos
 //	thorough: getter   : as quick with all 4 paths and 2-deviation repositories in the second block
-//	          others   : 1-deviation repositories x chart spellings (4 paths + bare references) x pass x allCombos,
+//	          others   : 1-deviation repositories x chart spellings (paths 1-2 + bare references) x pass x allCombos,
+//	                     1-deviation repositories x chart spellings (paths 3-4) x pass x coreCombos,
 //	                     plus exactly-2-deviation repositories x chart spellings (1 path + bare references) x pass x coreCombos
 func enumerate(thorough bool, only string, f func(Case)) spaceInfo {
 	info := spaceInfo{Bounds: map[string]string{}, PerPath: map[string]int64{}}
@@ -159,6 +160,19 @@ func enumerate(thorough bool, only string, f func(Case)) spaceInfo {
 	chG, d2 := chartURLs(gPaths, false)
 	chH, d3 := chartURLs(hPaths, true)
 	ch1, _ := chartURLs(1, true)
+	chH2, _ := chartURLs(2, true)
+	var chRest []string // the absolute spellings on paths 3 and 4
+	if all4, _ := chartURLs(len(absPaths), false); true {
+		have := map[string]bool{}
+		for _, u := range chH2 {
+			have[u] = true
+		}
+		for _, u := range all4 {
+			if !have[u] {
+				chRest = append(chRest, u)
+			}
+		}
+	}
 	info.Bounds["repo_url_spellings_full_product"] = fmt.Sprint(len(reposFull))
 	info.Bounds["repo_url_spellings_le1_deviation"] = fmt.Sprint(len(repos1))
 	info.Bounds["repo_url_spellings_eq2_deviations"] = fmt.Sprint(len(repos2))
@@ -181,7 +195,11 @@ func enumerate(thorough bool, only string, f func(Case)) spaceInfo {
 			block(path, repos1, chH, coreCombos(path), false)
 			continue
 		}
-		block(path, repos1, chH, allCombos(path), false)
+		// thorough: every (kind, redirect) pair on the first two paths and the bare references; the paths /x.tgz and
+		// /../x.tgz (which differ from the first two only below the getter, where the getter-level product has them
+		// in full) with the core pairs; the two-deviation repositories with the core pairs
+		block(path, repos1, chH2, allCombos(path), false)
+		block(path, repos1, chRest, coreCombos(path), false)
 		block(path, repos2, ch1, coreCombos(path), false)
 	}
 	// histories of Get calls on one getter instance
